@@ -53,6 +53,8 @@ OPS = [
 
 
 HIST_OPS = ["A", "B", "C", "D", "E", "G", "I"]
+# metric operations on a grid that registers the X metric at ONE position only (the others are interpolated on demand)
+HIST_METRIC_OPS = ["J", "K", "L", "M"]
 
 
 def structures(tier, seed):
@@ -60,6 +62,10 @@ def structures(tier, seed):
     import itertools
     for p, q in itertools.permutations(HIST_OPS, 2):
         out.append({"sid": f"history;{p}-then-{q}", "part": "history", "seq": [p, q]})
+    for p, q in itertools.permutations(HIST_METRIC_OPS, 2):
+        out.append({"sid": f"history;{p}-then-{q}", "part": "history", "seq": [p, q]})
+    for trip in (("J", "K", "M"), ("K", "J", "L"), ("A", "J", "K")):
+        out.append({"sid": f"history;{'-then-'.join(trip)}", "part": "history", "seq": list(trip)})
     for trip in (("A", "C", "B"), ("D", "A", "E"), ("G", "A", "G"), ("C", "E", "D"), ("I", "A", "B")):
         out.append({"sid": f"history;{'-then-'.join(trip)}", "part": "history", "seq": list(trip)})
     out.append({"sid": "history;canary;stateful-stub", "part": "history", "seq": ["A", "B"], "canary": True})
@@ -80,7 +86,10 @@ def run_history(s):
         X, Y = layout["X"], layout["Y"]
         gfill = w.real("gfill")
         gk = dict(periodic=False, boundary={"X": "fill", "Y": "extend", "Z": "fill"}, fill_value=gfill, metrics={("X",): ["dx_c", "dx_l"], ("Y",): ["dy_c"]})
+        if set(s["seq"]) & set(HIST_METRIC_OPS):
+            gk["metrics"] = {("X",): ["dx_c"], ("Y",): ["dy_c"]}
         c = w.array("C", ["t", Y["center"], X["center"]], ds, with_coords=True)
+        o = w.array("O", ["t", Y["center"], X["outer"]], ds)
         u = w.array("U", ["t", Y["center"], X["left"]], ds)
         v = w.array("V", ["t", Y["left"], X["center"]], ds)
         f1, f2, f3 = w.real("f1"), w.real("f2"), w.real("f3")
@@ -93,6 +102,10 @@ def run_history(s):
             "E": lambda g: g.cumsum(c, "X", to="left", boundary="fill", fill_value=f3),
             "G": lambda g: g.diff(args["G_v"], "X", to="center", other_component=args["G_o"]),
             "I": lambda g: g.max(c, "Y", boundary=args["I_b"]),
+            "J": lambda g: g.integrate(u, "X"),
+            "K": lambda g: g.integrate(o, "X"),
+            "L": lambda g: g.get_metric(o, ("X",)),
+            "M": lambda g: g.interp(c, "X", to="outer", metric_weighted=("X",)),
         }
 
         def run(g, name):
@@ -452,6 +465,11 @@ def replay(ob):
             names = {k: a.name for k, a in arrs.items()}
             td = None
 
+            def gsnap():
+                return ([(nm, ax.boundary, repr(ax.fill_value), tuple(ax.coords.items()), tuple(ax._default_shifts.items()), ax._periodic) for nm, ax in g.axes.items()],
+                        {tuple(sorted(k)): [(m.name, m.dims, m.values.tolist()) for m in vs] for k, vs in g._metrics.items()}, repr(g._face_connections))
+            gbefore = gsnap()
+
             def call():
                 nonlocal td
                 if op == "diff-dicts":
@@ -466,6 +484,14 @@ def replay(ob):
                                     fill_value=D("fill_value", {"X": 2.5, "Y": 0.0}), metric_weighted=D("metric_weighted", {"X": ("X",), "Y": None}))
                 if op == "derivative":
                     return g.derivative(c, "X", boundary=D("boundary", {"X": "extend"}))
+                if op == "integrate":
+                    return g.integrate(c, D("axis", ["X", "Y"]))
+                if op == "average":
+                    return g.average(c, D("axis", ["X"]))
+                if op == "cumint":
+                    return g.cumint(zc, "Z", to="outer", boundary="fill", fill_value=0.0)
+                if op == "get_metric":
+                    return g.get_metric(u, ("X",))
                 if op == "interp_like":
                     return g.interp_like(c, u, boundary=D("boundary", {"X": "extend"}))
                 if op == "pad-direct":
@@ -500,6 +526,10 @@ def replay(ob):
                 call()
             except Exception as e:  # noqa
                 text.append(f"raised {type(e).__name__}: {e}")
+            gafter = gsnap()
+            for part, b4, af in zip(("axis settings", "registered metrics", "face connections"), gbefore, gafter):
+                if b4 != af:
+                    text.append(f"ARGUMENT MODIFIED: the Grid's own {part} changed during the call" + (f": keys/lengths before {[(k, len(v)) for k, v in b4.items()]}, after {[(k, len(v)) for k, v in af.items()]}" if isinstance(b4, dict) else ""))
             for k, a in arrs.items():
                 if a.name != names[k]:
                     text.append(f"ARGUMENT MODIFIED: name of {k} is now {a.name!r}, was {names[k]!r}")
@@ -535,7 +565,9 @@ def replay_history(ob):
     ds["dx_l"] = ("x_l", rng.random(n) + 1)
     ds["dy_c"] = ("y_c", rng.random(n) + 1)
     coords = {"X": {"center": "x_c", "left": "x_l", "outer": "x_o"}, "Y": {"center": "y_c", "left": "y_l"}, "Z": {"center": "z_c", "outer": "z_o"}}
-    mk = lambda: xgcm.Grid(ds, coords=coords, periodic=False, boundary={"X": "fill", "Y": "extend", "Z": "fill"}, fill_value=7.5, metrics={("X",): ["dx_c", "dx_l"], ("Y",): ["dy_c"]}, autoparse_metadata=False)  # noqa
+    mets = {("X",): ["dx_c"], ("Y",): ["dy_c"]} if set(seq) & set(HIST_METRIC_OPS) else {("X",): ["dx_c", "dx_l"], ("Y",): ["dy_c"]}
+    mk = lambda: xgcm.Grid(ds, coords=coords, periodic=False, boundary={"X": "fill", "Y": "extend", "Z": "fill"}, fill_value=7.5, metrics=mets, autoparse_metadata=False)  # noqa
+    o = xr.DataArray(rng.random((2, n, n + 1)), dims=("t", "y_c", "x_o"), name="O")
     c = xr.DataArray(rng.random((2, n, n)), dims=("t", "y_c", "x_c"), name="C")
     u = xr.DataArray(rng.random((2, n, n)), dims=("t", "y_c", "x_l"), name="U")
     v = xr.DataArray(rng.random((2, n, n)), dims=("t", "y_l", "x_c"), name="V")
@@ -545,6 +577,8 @@ def replay_history(ob):
         "C": lambda g: pad(c, g, boundary_width={"X": (1, 1)}, boundary="periodic"), "D": lambda g: g.interp(c, ["X", "Y"], fill_value=2.25),
         "E": lambda g: g.cumsum(c, "X", to="left", boundary="fill", fill_value=-3.0), "G": lambda g: g.diff(args["G_v"], "X", to="center", other_component=args["G_o"]),
         "I": lambda g: g.max(c, "Y", boundary=args["I_b"]),
+        "J": lambda g: g.integrate(u, "X"), "K": lambda g: g.integrate(o, "X"), "L": lambda g: g.get_metric(o, ("X",)),
+        "M": lambda g: g.interp(c, "X", to="outer", metric_weighted=("X",)),
     }
 
     def run(g, name):
